@@ -24,6 +24,8 @@ PARTIAL = ["regex matching itself is not modelled; csv/tsv consumers are oracles
 
 ALPHA = [b"a", b"Z", b"0", b" ", b"'", b"\"", b"\\", b"%", b"&", b"<", b">", b"+", b",", b"\t", b"\n", b"\r", b"\x00", b"\x7f", b"~", b"/", b"=", b";", b"$", b"`", b"!", b"*", b"?",
          b"\xc3\xa9", b"\xe2\x82\xac", b"\xf0\x9f\x98\x80", b"\xff", b"\xc3", b"\x80", b"\xe2\x82",
+         # encodings that end in or contain the boundary bytes 0x80 / 0xBF of the continuation range
+         b"\xc2\xbf", b"\xc3\xbf", b"\xef\xbf\xbd", b"\xf0\x9f\x98\xbf", b"\xc2\x80", b"\xbf",
          # what the encoders themselves write, and pieces of it: decoding must be one pass
          b"&lt;", b"&amp;", b"&quot;", b"&#39;", b"&gt;", b"lt;", b"amp;", b"#39;", b"%25", b"%2", b"25", b"'\\''", b"=="]
 
@@ -56,6 +58,15 @@ def gen(ctx):
         sep = rng.choice(seps)
         cases.append(dict(filter="[(. / $x), ((. / $x) | join($x)), (split($x) | join($x)), (try (indices($x) | map(. as $i | $in | .[$i:][:($x | length)] == $x) | all) catch \"E\")] | . as $r | $r", inputs=[S(s)],
                           vars=[("x", S(sep)), ("in", S(s))], kind="split-join", s=s, sep=sep))
+    # separators taken from the text itself, so that there are occurrences behind every kind of character
+    for s in rng.sample(ss, 150 if tier == "quick" else 2000) + [("¿Qué? ¿Cómo?").encode(), "ÿÿ?ÿ?".encode(), "x\ufffd?\ufffd?".encode(), "\U0001F63F ? \U0001F63F?".encode(), b"\xc2\x80a\xc2\x80a"]:
+        sg = seg(s)
+        if not sg:
+            continue
+        i = rng.randrange(len(sg))
+        sep = b"".join(sg[i:i + rng.choice([1, 1, 2])])
+        cases.append(dict(filter="[(. / $x), ((. / $x) | join($x)), (split($x) | join($x)), (try (indices($x) | map(. as $i | $in | .[$i:][:($x | length)] == $x) | all) catch \"E\"), indices($x)] | . as $r | $r", inputs=[S(s)],
+                          vars=[("x", S(sep)), ("in", S(s))], kind="split-join", s=s, sep=sep))
     # malformed decoder input
     bad64 = [b"Y", b"YQ", b"YQ=", b"YQ===", b"YR==", b"YWJ=", b"Y Q==", b"YQ==\n", b"!!!!", b"YQ==YQ==", b"=YQ=", b"YWJj\x00", b"YWJjZA", b"\xff\xff\xff\xff", b"YW-j", b"YW_j", b"YQ=a"]
     for b in bad64:
@@ -79,6 +90,14 @@ def gen(ctx):
                                  "(($ms | length) + 1 == ([splits($re)] | length) or $in == \"\"), ([scan($re; \"g\")] == [$ms[].string]), (test($re) == (($ms | length) > 0))]",
                           inputs=[S(t.encode("latin-1"))], vars=[("re", S(r.encode())), ("in", S(t.encode("latin-1")))], kind="regex", s=t, re=r))
     # a format string inside a format string is a string like any other: the outer format applies to it
+    # the same laws under every flag set: with `n` empty matches are ignored by the matches and by the pieces between them alike
+    ftexts = [b"a,b", b"a,,b,", b"", b",", b"aXbXc", b"\xc3\xa9,\xc2\xbf", b"ab", b"a\nb,c"]
+    fres = [",*", ",", "X?", "", "[a-z]*", "(,)|(X)", "\\s*", "b*", ".", "^", "$"]
+    for t, r, fl in itertools.product(ftexts, fres, ["n", "gn", "g", "", "gi", "nx", "gs", "gl", "gnl", "nl"]):
+        cases.append(dict(filter="[[match($re; \"g\" + $fl)] as $ms | [splits($re; $fl)] as $ps | [$ms[].string] as $mm | "
+                                 "(([range($ps | length) as $i | $ps[$i], ($mm[$i] // \"\")] | add // \"\") == $in), (($ms | length) + 1 == ($ps | length) or $in == \"\"), "
+                                 "([scan($re; \"g\" + $fl)] == [$ms[].string]), ([split($re; $fl)] == [$ps]), (test($re; $fl) == (($ms | length) > 0))]",
+                          inputs=[S(t)], vars=[("re", S(r.encode())), ("fl", S(fl.encode())), ("in", S(t))], kind="regex-flags", s=t, re=r + " / " + fl))
     fmts = ["@text", "@json", "@html", "@uri", "@sh", "@base64", "@base64d", "@urid", "@htmld"]
     lits = [("<'&%", ">\\\"x"), ("a b", "$(id)"), ("", ""), ("'", "'")]
     for F, G in itertools.product(fmts, repeat=2):
@@ -100,7 +119,7 @@ def oracle(c, impl, model=None):
             return ("codec-error", "%s fails on %r: %s" % (k, c.get("s"), sx.dumps(impl)[:200]))
         if k == "format" and b"\x00" not in c["s"]:
             return ("codec-error", "%s fails on %r: %s" % (k, c.get("s"), sx.dumps(impl)[:200]))
-        if k == "regex":
+        if k in ("regex", "regex-flags"):
             return ("regex-error", "regex filters fail on %r / %r: %s" % (c["s"], c["re"], sx.dumps(impl)[:200]))
         return None
     out = impl[1][0][1:]
@@ -162,7 +181,15 @@ def oracle(c, impl, model=None):
             return ("tsv", "@tsv of %r is %s: not one clean field" % (s, sx.dumps(tsv_)[:100]))
     if k == "split-join":
         sep = c["sep"]
-        parts, joined, joined2, idx_ok = out
+        parts, joined, joined2, idx_ok = out[:4]
+        if len(out) > 4:
+            try:
+                t, x = s.decode("utf-8"), sep.decode("utf-8")
+                want = [i for i in range(len(t)) if t.startswith(x, i)]
+                if out[4] != ["A"] + [I(i) for i in want]:
+                    return ("indices-ref", "indices(%r) in %r is %s, the character positions are %r" % (sep, s, sx.dumps(out[4])[:100], want))
+            except UnicodeDecodeError:
+                pass
         if s != b"" and joined != ["S", s]:
             return ("split-join", "(%r / %r) | join gives %s" % (s, sep, sx.dumps(joined)[:100]))
         if idx_ok not in ("true", ["S", b"E"]):
@@ -187,6 +214,11 @@ def oracle(c, impl, model=None):
         for i, n in enumerate(names):
             if out[i] != "true":
                 return ("regex:" + n, "%s: text %r regex %r" % (n, c["s"], c["re"]))
+    if k == "regex-flags":
+        names = ["splits+matches reassemble", "split count", "scan", "split = [splits]", "test"]
+        for i, n in enumerate(names):
+            if out[i] != "true":
+                return ("regex-flags:" + n, "%s: text %r regex/flags %r" % (n, c["s"], c["re"]))
     return None
 
 
